@@ -2,7 +2,8 @@
 Model of the per-thread executor of cocls ("coroutine mode" scheduling), single thread:
 `coro_queue.h` (`resume`, `install_queue_and_call`, `flush_queue`, `swap_coroutine`, `pause`,
 `create_suspend_point`, `resume_handle_next`), `suspend_point.h` (`~suspend_point`/`suspend_now`,
-`await_suspend`), `async.h` (`start`, `detach`, `co_await async`, `final_awaiter`).
+`await_suspend`), `async.h` (`start`, `detach`, `co_await async`, `final_awaiter`), and the scheduling side of
+`generator.h` (`next_sync` / `next_future` / `next_awt::subscribe` → `resume_in_queue`, `yield_suspend`).
 
 The model is *open*: one step = one act performed by whoever is executing right now (`cur = some c`: the
 coroutine `c`; `cur = none`: ordinary, non-coroutine code).  A program of N scripted coroutines induces one
@@ -39,6 +40,8 @@ inductive St where
                         -- awaiter is a resume function that hands the handle to a brand new thread
   | waiting (d : Nat)   -- suspended in `co_await` of coroutine `d` (its async or its future)
   | stacked             -- blocked in a nested `start()` (on the C stack, in `calls`)
+  | yielded             -- a generator body (generator.h) suspended in `co_yield` after it handed the value to a synchronous /
+                        -- future access: nothing can make it ready, only the next access resumes it (directly)
   | done
   deriving DecidableEq, Repr, Inhabited
 
@@ -70,6 +73,18 @@ inductive Act where
   /-- `future::force_wait()` / `force_sync()` on a pending future that another thread resolves: the thread
   blocks (`sync_awaiter`, `flag.wait`) and comes back; whoever called it is still the one executing -/
   | fwait
+  /-- synchronous / future access to the generator `d` (generator.h: `bool(gen.next())` → `next_sync`, `gen()` → `next_future`,
+  `gen.next().subscribe(a)`): the body — not started yet, or suspended in `co_yield` — is resumed by `resume_in_queue(h)`: a
+  direct `h.resume()` on the caller's stack when a queue is installed, `coro_queue::install_queue_and_resume(h)` when the
+  caller is ordinary code outside coroutine mode (/repo fix 191263e; the pinned code called `h.resume()` in both cases:
+  `mainGnextAsIs`). A no-op for anything else (a busy or finished generator is not accessed, `next()` of a finished one
+  answers without resuming). -/
+  | gnext (d : Nat)
+  /-- the generator body executes `co_yield v` with the internal awaiter as its caller (synchronous / future access):
+  `yield_suspend::await_suspend` wakes the blocked consumer (`unblock_sync`: a flag) resp. resolves the future nobody awaits,
+  gets an empty suspend point and returns `noop_coroutine()`: control is back in whoever resumed the body. A no-op in a
+  coroutine that is not a generator body. -/
+  | gyield
   | call (d : Nat)      -- `co_await async`: symmetric transfer into the child
   | join (d : Nat)      -- `co_await` the future returned by an earlier `start d` of the same coroutine
   | fin                 -- `co_return`: `final_awaiter`
@@ -101,6 +116,8 @@ structure State where
   jobs : List (List Nat × Bool) := []
   /-- the current activation runs in a pool worker (`thread_pool::_current != nullptr`) -/
   worker : Bool := false
+  /-- coroutine `d` is a generator body (its first activation was an access, `Act.gnext d`) -/
+  gen : Nat → Bool := fun _ => false
   -- ghost
   enq : List Nat := []
   deq : List Nat := []
@@ -207,6 +224,21 @@ def coCall (s : State) (c d : Nat) : State :=
              cur := some d, made := s.made ++ [d], runs := s.runs ++ [d] }
   else s
 
+/-- the generator `d` can be accessed: its body has not started yet or is suspended in `co_yield` -/
+def resumable (s : State) (d : Nat) : Bool := s.st d == St.fresh || s.st d == St.yielded
+
+/-- a coroutine accesses generator `d` synchronously: a queue is installed (the caller runs in coroutine mode), so
+`resume_in_queue` is a plain nested `h.resume()`; the caller is blocked on the C stack until the body yields -/
+def coGnext (s : State) (c d : Nat) : State :=
+  if resumable s d then
+    { s with st := upd (upd s.st c St.stacked) d St.running, calls := c :: s.calls, gen := upd s.gen d true,
+             cur := some d, made := s.made ++ [d], runs := s.runs ++ [d] }
+  else s
+
+/-- `co_yield` answered to the internal awaiter: back to the resumer -/
+def coGyield (s : State) (c : Nat) : State :=
+  if s.gen c then settle { s with st := upd s.st c St.yielded } else s
+
 def coJoin (s : State) (c d : Nat) : State :=
   if s.starter d = some c ∧ s.st d ≠ St.done ∧ s.waiter d = none then
     settle { s with st := upd s.st c (St.waiting d), waiter := upd s.waiter d (some c) }
@@ -255,6 +287,8 @@ def coStep (s : State) (c : Nat) : Act → State
   | Act.parkNext => coParkNext s c
   | Act.pause => coPause s c
   | Act.start d fut => coStart s c d fut
+  | Act.gnext d => coGnext s c d
+  | Act.gyield => coGyield s c
   | Act.call d => coCall s c d
   | Act.join d => coJoin s c d
   | Act.fin => coFin s c
@@ -278,6 +312,20 @@ def mainStart (s : State) (d : Nat) : State :=
     else
       { s with st := upd s.st d St.running, active := true, base := some (Base.loop [] s.active),
                cur := some d, made := s.made ++ [d], runs := s.runs ++ [d] }
+  else s
+
+/-- ordinary code accesses generator `d`: inside an installed block the body is resumed directly (`callMain`, like
+`start()` there); outside coroutine mode `resume_in_queue` installs the queue for this activation
+(`install_queue_and_resume`): whatever the body makes ready is queued and run — after the body has yielded — by the
+trailer, before the access returns -/
+def mainGnext (s : State) (d : Nat) : State :=
+  if resumable s d then
+    if s.active then
+      { s with st := upd s.st d St.running, base := some Base.callMain, cur := some d, gen := upd s.gen d true,
+               made := s.made ++ [d], runs := s.runs ++ [d] }
+    else
+      { s with st := upd s.st d St.running, active := true, base := some (Base.loop [] s.active),
+               cur := some d, gen := upd s.gen d true, made := s.made ++ [d], runs := s.runs ++ [d] }
   else s
 
 def mainEnter (s : State) : State :=
@@ -306,6 +354,7 @@ def mainStep (s : State) : Act → State
   | Act.wakePar d => wakePar s d
   | Act.job => mainJob s
   | Act.start d _ => mainStart s d
+  | Act.gnext d => mainGnext s d
   | Act.enter => mainEnter s
   | Act.leave => mainLeave s
   | _ => s
@@ -373,5 +422,31 @@ def stepGatherAsIs (s : State) (a : Act) : State :=
   | _, _ => step s a
 
 def runGatherAsIs (s : State) (acts : List Act) : State := acts.foldl stepGatherAsIs s
+
+/-! ## The unrepaired generator access (pinned commit, before `/repo` commit 191263e)
+
+`next_sync()`, `next_future()` and `next_awt::subscribe()` resumed the generator body by a bare `h.resume()`.  Called from
+ordinary code outside coroutine mode the body ran with `coro_queue::instance == nullptr`.  As for the unrepaired `parallel`
+above, only what is needed to exhibit the consequence is modelled: the body starts with no queue installed, and a suspend
+point it drops goes through the `install_queue_and_call` branch of `suspend_now` (`enqueueAsIs`): its first handle is resumed
+at once, nested in the running body.  (`co_await pause()` in such a body dereferences the null `instance`: not modelled.) -/
+
+/-- ordinary code accesses generator `d` as the pinned commit had it: `h.resume()`, whether or not a queue is installed -/
+def mainGnextAsIs (s : State) (d : Nat) : State :=
+  if resumable s d then
+    { s with st := upd s.st d St.running, base := some Base.callMain, cur := some d, gen := upd s.gen d true,
+             made := s.made ++ [d], runs := s.runs ++ [d] }
+  else s
+
+/-- the step function before `/repo` commit 191263e ("fix: synchronous and future access to a generator ran its body without
+a coroutine queue"): access from ordinary code by a bare `h.resume()`; a dropped suspend point does what `suspend_now` does
+when no queue is installed; everything else as `step` -/
+def stepGenAsIs (s : State) (a : Act) : State :=
+  match s.cur, a with
+  | none, Act.gnext d => mainGnextAsIs s d
+  | some c, Act.wake cs Mode.discard rev => enqueueAsIs s c cs rev
+  | _, _ => step s a
+
+def runGenAsIs (s : State) (acts : List Act) : State := acts.foldl stepGenAsIs s
 
 end Cocls.Exec
